@@ -441,6 +441,9 @@ type Tx struct {
 	Writes  map[uint32][]byte // pgno -> new content (page 1 is rewritten by the simulator to carry the new size)
 	NewSize uint32
 	Wal     bool // header versions of page 1 after the tx (switches the database to WAL mode)
+	// Spill: pages beyond both the old and the final size that the transaction allocated, that the
+	// page cache spilled to the file, and that were freed again before the commit
+	Spill map[uint32][]byte
 }
 
 var ctx = context.Background()
@@ -506,6 +509,9 @@ type Pager struct {
 	// journal back and finalise again, as SQLite does; CommitErr2 is that second result.
 	RollbackOnCommitError bool
 	CommitErr2            error
+	// BeforeCommit runs immediately before the commit step (journal finalisation / release of the
+	// WAL write lock after a commit frame).
+	BeforeCommit func()
 }
 
 func (p *Pager) logf(f string, a ...any) { p.Steps = append(p.Steps, fmt.Sprintf(f, a...)) }
@@ -711,6 +717,18 @@ func (p *Pager) RunRollbackTx(prev *Image, tx Tx, jm JournalMode, outcome Rollba
 	}
 	SetHeader(p1, ps, tx.NewSize, tx.Wal)
 	writes[1] = p1
+	maxWritten := uint32(len(prev.Pages))
+	for _, pg := range sortedPgnos(tx.Spill) {
+		if err := db.WriteDatabaseAt(ctx, dbf, tx.Spill[pg], int64(pg-1)*int64(ps), o); err != nil {
+			_ = finalize()
+			unlockAll()
+			return fmt.Errorf("spill page %d: %w", pg, err)
+		}
+		p.Rec.Write(pg, tx.Spill[pg])
+		if pg > maxWritten {
+			maxWritten = pg
+		}
+	}
 	for _, pg := range sortedPgnos(writes) {
 		if pg > tx.NewSize && outcome == Commit {
 			continue // freed pages beyond the new size are not written
@@ -733,7 +751,7 @@ func (p *Pager) RunRollbackTx(prev *Image, tx Tx, jm JournalMode, outcome Rollba
 			p.Rec.Write(pg, prev.Pages[pg-1])
 		}
 		// pages appended by the aborted tx are cut off by SQLite with a truncate to the original size
-		if tx.NewSize > uint32(len(prev.Pages)) && len(prev.Pages) > 0 {
+		if (tx.NewSize > uint32(len(prev.Pages)) || maxWritten > uint32(len(prev.Pages))) && len(prev.Pages) > 0 {
 			if err := db.TruncateDatabase(ctx, int64(len(prev.Pages))*int64(ps)); err != nil {
 				unlockAll()
 				return fmt.Errorf("rollback truncate: %w", err)
@@ -747,13 +765,16 @@ func (p *Pager) RunRollbackTx(prev *Image, tx Tx, jm JournalMode, outcome Rollba
 		return err
 	}
 	p.Rec.CommitJournal(tx.NewSize)
+	if p.BeforeCommit != nil {
+		p.BeforeCommit()
+	}
 	if err := finalize(); err != nil {
 		if p.RollbackOnCommitError {
 			// what SQLite does when the journal cannot be finalised: play it back, finalise again
 			for _, pg := range recs {
 				_ = db.WriteDatabaseAt(ctx, dbf, prev.Pages[pg-1], int64(pg-1)*int64(ps), o)
 			}
-			if tx.NewSize > uint32(len(prev.Pages)) && len(prev.Pages) > 0 {
+			if (tx.NewSize > uint32(len(prev.Pages)) || maxWritten > uint32(len(prev.Pages))) && len(prev.Pages) > 0 {
 				_ = db.TruncateDatabase(ctx, int64(len(prev.Pages))*int64(ps))
 			}
 			p.CommitErr2 = finalize()
@@ -762,7 +783,7 @@ func (p *Pager) RunRollbackTx(prev *Image, tx Tx, jm JournalMode, outcome Rollba
 		unlockAll()
 		return fmt.Errorf("finalize: %w", err)
 	}
-	if tx.NewSize < uint32(len(prev.Pages)) {
+	if tx.NewSize < maxWritten {
 		p.Rec.Truncate(tx.NewSize)
 		if err := db.TruncateDatabase(ctx, int64(tx.NewSize)*int64(ps)); err != nil {
 			unlockAll()
@@ -845,6 +866,9 @@ func (p *Pager) EnsureWAL() {
 func (p *Pager) EndWALWrite() {
 	if p.pendingCommit != 0 {
 		p.Rec.CommitWal(p.pending, p.pendingCommit)
+		if p.BeforeCommit != nil {
+			p.BeforeCommit()
+		}
 	}
 	p.pending, p.pendingCommit = nil, 0
 	_ = p.DB.Unlock(ctx, p.Owner, []litefs.LockType{litefs.LockTypeWrite})
